@@ -128,6 +128,38 @@ impl<'a> Canon for pe32::debug::Entry<'a> {
 	}
 }
 
+
+// ------------------------------------------------------------------ value-only forms (rows `m.*`, recomputed by the extracted wrapper model)
+
+/// long values are replaced by their hash and length (the driver does the same)
+fn hl(s: String) -> String {
+	if s.len() > 160 && std::env::var("WJ_LONG").is_err() { format!("#{:x}+{}", fnv(s.as_bytes()), s.len()) } else { s }
+}
+fn ve(e: &pelite::Error) -> String { format!("e.{:?}", e) }
+fn vx(r: &pelite::Result<pe32::exports::Export>) -> String {
+	match r { Ok(pe32::exports::Export::Symbol(r)) => format!("sym.{}", r), Ok(pe32::exports::Export::Forward(s)) => format!("fwd.{}", hex(s.as_ref())), Err(e) => ve(e) }
+}
+fn vn(r: &pelite::Result<&pelite::util::CStr>) -> String {
+	match r { Ok(s) => format!("n.{}", hex(s.as_ref())), Err(e) => ve(e) }
+}
+fn vi(r: &pelite::Result<pe32::imports::Import>) -> String {
+	match r { Ok(pe32::imports::Import::ByName { hint, name }) => format!("n.{}.{}", hint, hex(name.as_ref())), Ok(pe32::imports::Import::ByOrdinal { ord }) => format!("o.{}", ord), Err(e) => ve(e) }
+}
+trait Val { fn val(&self) -> String; }
+impl<'a> Val for &'a u32 { fn val(&self) -> String { self.to_string() } }
+impl<'a> Val for &'a u64 { fn val(&self) -> String { self.to_string() } }
+impl<A: Val, B: Val> Val for Wrap<A, B> { fn val(&self) -> String { match self { Wrap::T32(a) => a.val(), Wrap::T64(b) => b.val() } } }
+fn vr<T, F: FnOnce(T) -> String>(r: pelite::Result<T>, f: F) -> String { match r { Ok(v) => f(v), Err(e) => ve(&e) } }
+fn jn(v: Vec<String>, sep: &str) -> String { if v.is_empty() { "-".to_string() } else { v.join(sep) } }
+/// the JSON text as one token: bytes outside 0x21..0x7E and '%' as %XX
+fn pct(s: &str) -> String {
+	let mut o = String::with_capacity(s.len() + 16);
+	for &b in s.as_bytes() {
+		if b <= 0x20 || b >= 0x7f || b == b'%' { o.push_str(&format!("%{:02X}", b)); } else { o.push(b as char); }
+	}
+	o
+}
+
 /// runs one call; a panic becomes the value
 fn guard<F: FnOnce() -> String>(f: F) -> String {
 	match catch_unwind(AssertUnwindSafe(f)) {
@@ -264,6 +296,13 @@ macro_rules! walk {
 		row!(rows, "debug.into_iter", pe.debug().map(|d| d.into_iter().take(12).map(|dir| dir.image()).collect::<Vec<_>>()));
 		row!(rows, "tls", pe.tls().map(|t| (t.image(), (t.raw_data(), (t.slot(), (t.callbacks(), t.pe().image()))))));
 		row!(rows, "load_config", pe.load_config().map(|l| (l.image(), (l.security_cookie(), (l.se_handler_table(), l.pe().image())))));
+		// rows recomputed by the extracted wrapper model (value-only forms, at most 64 items each)
+		rowm!(rows, "m.by.iter", hl(vr(pe.exports().and_then(|e| e.by()), |by| jn(by.iter().take(64).map(|x| vx(&x)).collect(), ","))));
+		rowm!(rows, "m.by.iter_names", hl(vr(pe.exports().and_then(|e| e.by()), |by| jn(by.iter_names().take(64).map(|(n, x)| format!("({};{})", vn(&n), vx(&x))).collect(), ","))));
+		rowm!(rows, "m.by.iter_name_indices", hl(vr(pe.exports().and_then(|e| e.by()), |by| jn(by.iter_name_indices().take(64).map(|(n, i)| format!("({};{})", vn(&n), i)).collect(), ","))));
+		rowm!(rows, "m.imp.int", hl(vr(pe.imports(), |i| jn(i.into_iter().take(8).map(|d| vr(d.int(), |it| format!("[{}]", jn(it.take(64).map(|x| vi(&x)).collect(), ",")))).collect(), "|"))));
+		rowm!(rows, "m.imp.iat", hl(vr(pe.imports(), |i| jn(i.iter().take(8).map(|d| vr(d.iat(), |it| format!("[{}]", jn(it.take(64).map(|x| x.val()).collect(), ",")))).collect(), "|"))));
+		rowm!(rows, "m.dbg.into_iter", vr(pe.debug(), |d| format!("{}", d.into_iter().count())));
 		rows
 	}};
 }
@@ -321,7 +360,7 @@ macro_rules! json_table {
 		jr!("secs", match path(j, &["headers", "SectionHeaders"]) { Value::Array(a) => a.iter().map(|d| ["VirtualAddress", "VirtualSize", "PointerToRawData", "SizeOfRawData", "PointerToRelocations", "PointerToLinenumbers", "NumberOfRelocations", "NumberOfLinenumbers", "Characteristics"].iter().map(|k| vj(path(d, &[k]))).collect::<Vec<_>>().join(":")).collect::<Vec<_>>().join(";"), o => vj(o) },
 			pe.section_headers().image().iter().map(|s| format!("{}:{}:{}:{}:{}:{}:{}:{}:{}", s.VirtualAddress, s.VirtualSize, s.PointerToRawData, s.SizeOfRawData, s.PointerToRelocations, s.PointerToLinenumbers, s.NumberOfRelocations, s.NumberOfLinenumbers, s.Characteristics)).collect::<Vec<_>>().join(";"));
 		jr!("secs.Name", match path(j, &["headers", "SectionHeaders"]) { Value::Array(a) => a_list(a.iter().map(|d| match path(d, &["Name"]) { Value::String(s) => hex(s.as_bytes()), Value::Array(b) => b.iter().map(|x| format!("{:02x}", x.as_u64().unwrap_or(999))).collect::<Vec<_>>().join(""), o => vj(o) }).collect()), o => vj(o) },
-			a_list(pe.section_headers().image().iter().map(|s| { let n: &[u8] = &s.Name[..]; let e = n.iter().position(|c| *c == 0).unwrap_or(8); if std::str::from_utf8(&n[..e]).is_ok() && n[e..].iter().all(|c| *c == 0) { hex(&n[..e]) } else { hex(n) } }).collect()));
+			a_list(pe.section_headers().image().iter().map(|s| { let n: &[u8] = &s.Name[..]; let mut e = 8; while e > 0 && n[e - 1] == 0 { e -= 1; } if std::str::from_utf8(&n[..e]).is_ok() { hex(&n[..e]) } else { hex(n) } }).collect()));
 		jr!("details.CheckSum", vj(path(j, &["headers", "details", "OptionalHeader.CheckSum"])), pe.headers().check_sum().to_string());
 		jr!("details.dd_sections", match path(j, &["headers", "details", "DataDirectory.Sections"]) { Value::Array(a) => a.iter().map(|x| match x { Value::Null => "n".to_string(), o => vj(o) }).collect::<Vec<_>>().join(","), o => vj(o) }, {
 			let first = pe.section_headers().image().as_ptr() as usize;
@@ -607,6 +646,54 @@ fn gen_demo(rng: &mut Rng) -> String {
 			}
 		}
 	}
+	// JSON shapes (one case in four, second round): bytes that exercise the string escapes of the printer (quote, backslash,
+	// control characters, DEL), the \\xHH form of C strings, valid multi-byte UTF-8 and invalid UTF-8 (section names fall
+	// back to the byte array, export names are dropped from the map), and the untagged Entry variants of the debug directory
+	if rng.chance(1, 4) {
+		const NASTY: [&[u8]; 12] = [b"\"", b"\\", b"\x01", b"\x1f", b"\x7f", b"\x80", b"\xc3\xa9", b"\xff\xfe", b"\n\t", b"\xe2\x82\xac", b"\x08\x0c\r", b"\xf0\x9f\x98\x80"];
+		let exp = { let va = r32(&b, dd); if va != 0 { to_off(va) } else { None } };
+		let dbg = { let (va, sz) = (r32(&b, dd + 48), r32(&b, dd + 52)); if va != 0 { to_off(va).map(|o| (o, sz as usize / 28)) } else { None } };
+		let imp = { let va = r32(&b, dd + 8); if va != 0 { to_off(va) } else { None } };
+		for _ in 0..rng.range(1, 3) {
+			let nasty = rng.pick(&NASTY).to_vec();
+			match rng.below(6) {
+				0 => {
+					// inside a section name (never beyond its 8 bytes)
+					let pos = rng.below(8) as usize;
+					let o = st + 40 * rng.below(nsec as u64) as usize + pos;
+					pokes.push((o, nasty[..nasty.len().min(8 - pos)].to_vec()));
+				},
+				1 => if let Some(o) = exp {
+					// inside an export name or the dll name
+					let nnames = r32(&b, o + 24) as u64;
+					let target = if rng.chance(1, 4) || nnames == 0 { to_off(r32(&b, o + 12)) } else { to_off(r32(&b, o + 32)).and_then(|t| to_off(r32(&b, t + 4 * rng.below(nnames.min(64)) as usize))) };
+					if let Some(t) = target { pokes.push((t + rng.below(4) as usize, nasty)); }
+				},
+				2 => if let Some((o, n)) = dbg {
+					// the type of a debug directory entry: POGO, MISC, unknown types, CodeView
+					if n > 0 { pokes.push((o + 28 * rng.below(n as u64) as usize + 12, (*rng.pick(&[13u32, 4, 0, 9, 16, 17, 2, 0xFFFF_FFFF])).to_le_bytes().to_vec())); }
+				},
+				3 => if let Some((o, n)) = dbg {
+					// inside the pdb path of a CodeView record, or its signature / age
+					if n > 0 {
+						let e = o + 28 * rng.below(n as u64) as usize;
+						let p2 = if view { r32(&b, e + 20) as usize } else { r32(&b, e + 24) as usize };
+						if p2 != 0 && p2 + 64 < b.len() { pokes.push((p2 + *rng.pick(&[4usize, 20, 24, 25, 30, 40]), nasty)); }
+					}
+				},
+				4 => if let Some(o) = imp {
+					// inside the dll name of an import descriptor or the name of an imported symbol
+					let k = 20 * rng.below(2) as usize;
+					let target = if rng.chance(1, 2) { to_off(r32(&b, o + k + 12)) } else { to_off(r32(&b, o + k)).and_then(|t| to_off(r32(&b, t) & 0x7FFF_FFFF)).map(|t| t + 2) };
+					if let Some(t) = target { pokes.push((t + rng.below(4) as usize, nasty)); }
+				},
+				_ => if let Some((o, n)) = dbg {
+					// SizeOfData of a debug entry: small sizes make the Unknown / POGO variants carry short data
+					if n > 0 { pokes.push((o + 28 * rng.below(n as u64) as usize + 16, (*rng.pick(&[0u32, 3, 4, 8, 12, 13, 16, 40])).to_le_bytes().to_vec())); }
+				},
+			}
+		}
+	}
 	// targeted shapes (one case in five): table combinations the random field pokes almost never produce
 	if rng.chance(1, 5) {
 		let exp = { let va = r32(&b, dd); if va != 0 { to_off(va) } else { None } };
@@ -723,6 +810,9 @@ macro_rules! run_kind {
 						out.push_str(" json=ok");
 						let other = match js2 { Ok(Ok(t)) => format!("{:x}+{}", fnv(t.as_bytes()), t.len()), Ok(Err(e)) => format!("!error:{}", clean(&e.to_string())), Err(e) => pmsg(e) };
 						out.push_str(&format!(" J:text={:x}+{}~{}", fnv(text.as_bytes()), text.len(), other));
+						// the text itself, for the extracted parser / validator and the comparison with the model's tree
+						if std::env::var("WJ_DUMP").is_ok() { eprintln!("{}", text); }
+						if text.len() <= 400_000 { out.push_str(&format!(" JT:{}", pct(&text))); } else { out.push_str(" JT:!big"); }
 						let rows = if magic == 0x20b { json_table!(pe64, pe64::$File::from_bytes(b).unwrap(), &val) } else { json_table!(pe32, pe32::$File::from_bytes(b).unwrap(), &val) };
 						for (k, jv, av) in rows {
 							out.push_str(&format!(" J:{}={}~{}", k, jv, av));
